@@ -31,6 +31,8 @@ def local_defs(fn, name):
                         out.append(("assign", n["r"], n))
                     elif n.get("k") == "call" and n.get("op") == "=":
                         out.append(("assign", n["args"][0] if n.get("args") else None, n))
+                    elif n.get("k") == "call" and (n.get("name") or "") in ("std::move", "std::forward") and len(n.get("args", [])) == 1:
+                        continue  # the cast itself changes nothing; what is read after the consumer took the value is R-moved's business
                     elif n.get("k") == "call":
                         th = n.get("this")
                         if th is not None and ir.unwrap(th) is ir.unwrap(lv):
